@@ -269,6 +269,22 @@ pub fn drive(log: &mut Log) {
         }
     }
 
+    // (a2) subtraction of two log-probabilities of large magnitude that are nearly equal AS LOGS
+    // (relative difference 1e-6 .. 1e-5 of |lp|) but differ by 0.5 % .. 60 % as probabilities
+    {
+        case += 1;
+        if log.mine(case) && log.begin("subnear", json!({"kind": "ops"})) {
+            for &a in &[-600.0f64, -650.0, -700.0, -740.0, -1000.0, -5000.0, -1.0e5, -9.0e5] {
+                for &r in &[9.0e-6f64, 5.0e-6, 2.0e-6, 1.0e-6, 9.9e-6] {
+                    let b = a + a * r; // b < a
+                    call_sub(log, a, b);
+                    call_add(log, a, b);
+                    log.oblige("sub_nearly_equal_logs_large_magnitude");
+                }
+            }
+        }
+    }
+
     // (b) complement around the switch point of ln_1m_exp and over the whole range
     for _ in 0..log.opts.n(150, 1500) {
         case += 1;
